@@ -1450,10 +1450,17 @@ func (w *world) doRead(r int) {
 		k = w.bufID(p)
 		c = classify(p)
 	}
-	// the store's view of the same root
+	// the store's view of the same root, read from the tables: Store.SectorLocation would refresh the
+	// sector's last access and so change what the next prune does
 	st := 0
-	if _, err := w.store.SectorLocation(w.root(r)); err == nil {
-		st = 1
+	if _, occ, err := w.store.VerifVolRecount(); err == nil {
+		root := w.root(r)
+		for _, sl := range occ {
+			if sl.Root == root {
+				st = 1
+				break
+			}
+		}
 	}
 	w.tr.Count("read:" + res)
 	w.tr.Line(fmt.Sprintf("read r=%d", r), fmt.Sprintf("res=%s buf=%d c=%s intact=%d st=%d", res, k, c, b2i(c == fmt.Sprint(r)), st))
